@@ -408,6 +408,33 @@ pub fn run(tier: Tier) {
     if c.has_violations() {
         return;
     }
+    // numbers in step text next to every kind of blank (the inline-quantity scanner walks this text)
+    let txt = Arc::new(crate::strings::Alphabet::new("A_text_numbers", &["2", "1/2", "a", "x", " ", "\u{a0}", "\u{2009}", "\t", ".", "é", "\n", "°"]));
+    c.part(json!({"alphabet": txt.name, "symbols": txt.syms}));
+    let nt = tier.pick(4, 5);
+    let (tx, sb) = (txt.clone(), subs.clone());
+    sweep(&format!("C02 A(ii): A_text_numbers strings of 0..={nt} symbols accepted by the classifier x 192 subsets"), txt.count_upto(nt), {
+        let tx = txt.clone();
+        move |idx| {
+            let mut seq = Vec::new();
+            let mut s = String::new();
+            tx.decode_upto(idx, nt, &mut seq);
+            tx.concat(&seq, &mut s);
+            json!({"kind": "differential", "input": s})
+        }
+    }, move |idx, local| {
+        let mut seq = Vec::new();
+        let mut s = String::new();
+        tx.decode_upto(idx, nt, &mut seq);
+        tx.concat(&seq, &mut s);
+        if !tx.is_canonical(&seq, &s) || !is_core_only(&s) {
+            return vec![];
+        }
+        differential(&s, &sb, local)
+    });
+    if c.has_violations() {
+        return;
+    }
     // block-level combinations: front matter together with `>>` lines, sections, paragraphs
     let blocks = Arc::new(crate::strings::Alphabet::new(
         "A_blocks_core",
